@@ -116,7 +116,7 @@ def p3_post():
             for leaf in T.loop_leaves(idx):
                 for t in T.binary_apps(leaf, c1, {'multiply', 'add'}):
                     out.extend(T.closures(t))
-    ragged = list(T.grow([a, b], [], {'raggedcat', 'raggedsum'}))
+    ragged = list(T.grow([a, b], [], {'raggedcat', 'raggedsum', 'raggedrange'}))
     out += list(T.grow(ragged, [a, b], POST_OPS))
     # a loop sum added to an array whose SHAPE is only known after another loop (total length of a variable-size concatenation):
     # the accumulator is allocated between the loops; equal loop lengths are merged into one for-loop
